@@ -669,6 +669,9 @@ class UnionProxy:
     def __hash__(self) -> int:
         return hash(self.__target__)
 
+    def __bool__(self) -> bool:
+        return bool(self.__target__)
+
     def __setattr__(self, attr: str, value: Any) -> None:
         setattr(self.__target__, attr, value)
         self.__union__._rebuild(self.__attr__)
